@@ -226,6 +226,27 @@ CLAIMED["C08"] = (
     "sequence-shape abstract interpretation with symbolic domains and label provenance; must-facts for guards (static analysis)",
     "DESIGN.md section 5, C08",
 )
+CLAIMED["C04"] = (
+    "Register maps: generate_acc_op of every concrete accelerator is abstractly interpreted, symbolically in the "
+    "configuration (numbers of streamer fields, gemmx n, PHS switch count), into address segments whose first address and "
+    "count are linear forms; every pair of segments (setup fields, launch registers, the two reserved streamer status "
+    "registers, the barrier) is proved disjoint by interval arithmetic on the difference form, a pair that cannot be proved is "
+    "searched for a concrete colliding configuration which is then reported; the address dictionaries name exactly the "
+    "declared setup / launch fields; RoCC tables pair .rs1/.rs2 under one funct7. Lowering: in every CSR lowering the single, "
+    "unconditional csrw per field takes the declaration's (launch_)field_items() entry of the loop's own field and the loop's "
+    "own value, in order; keyed lowerings (gemmx per-channel launch) write each named value to the register declared under "
+    "the same name; every polling await reads acc_op.barrier; the pass lowers setup, launch and await through the op's own "
+    "accelerator before declarations and states are erased; DeleteAllStates is untyped and filters operands, results and the "
+    "block arguments of every block of every region; create_pairs fills a missing partner from infer_state_of(this op's "
+    "in_state) under the same key and only if unset, defaults are materialised for a first setup, operand order is (rs1, rs2); "
+    "memoised objects are never mutated. Does not decide run-time register contents (depends on C07) nor address conventions "
+    "of the hardware that the code does not state.",
+    "Configuration symbols are non-negative integers; xDMA has two streamers (asserted in its __init__) hence at least four "
+    "pointer fields; max_multicast_dest is the class constant; the two reserved registers behind the streamer launch CSR are a "
+    "hardware constant frozen in the rule table with the code comment as its reason.",
+    "abstract interpretation of register-map builders to linear forms + interval reasoning with witness enumeration; dependency cones and must-facts on lowering functions (static analysis)",
+    "DESIGN.md section 5, C04",
+)
 NOT_APPLICABLE = {
     "C02": "address-stream equality is integer arithmetic over runtime strides/bounds; no structural necessary condition carries weight (DESIGN.md section 5, C02)",
 }
